@@ -638,6 +638,80 @@ func runC14(c *h.Ctx) {
 			c.Held("subscript.current")
 		}
 	}
+	// a bound that starts at $ is not a constant: it may go on to mention the
+	// filtered item or last, and is then worked out anew for every array the
+	// accessor is applied to in one execution
+	{
+		rr := c.Rand("c14-rooted")
+		nr := c.PerShard(c.N(20000, 200000))
+		for i := 0; i < nr; i++ {
+			lax := rr.IntN(2) == 0
+			mode := map[bool]string{true: "", false: "strict "}[lax]
+			npick := 2 + rr.IntN(4)
+			pick := make([]int, npick)
+			ptxts := make([]string, npick)
+			for j := range pick {
+				pick[j] = rr.IntN(4)
+				ptxts[j] = fmt.Sprint(pick[j])
+			}
+			nrows := 2 + rr.IntN(4)
+			rows := make([]string, nrows)
+			v := 10 * (1 + rr.IntN(3))
+			var want, wantLast []string
+			ms := make([]string, nrows)
+			for j := range rows {
+				ri := rr.IntN(npick+1) - 1 // -1: no such element of pick
+				na := 1 + rr.IntN(4)
+				el := make([]string, na)
+				a := make([]int, na)
+				for k := range a {
+					a[k] = 10 * (1 + rr.IntN(3))
+					el[k] = fmt.Sprint(a[k])
+				}
+				rows[j] = fmt.Sprintf(`{"i":%d,"id":%d,"a":[%s]}`, ri, 100+j, strings.Join(el, ","))
+				if ri >= 0 && pick[ri] < na && a[pick[ri]] == v {
+					want = append(want, fmt.Sprintf("#%d", 100+j))
+				}
+				ms[j] = "[" + strings.Join(el, ",") + "]"
+				wantLast = append(wantLast, "#"+el[na-1])
+			}
+			docText := fmt.Sprintf(`{"pick":[%s],"k":[0,1,2,3,4],"rows":[%s],"m":[%s]}`, strings.Join(ptxts, ","), strings.Join(rows, ","), strings.Join(ms, ","))
+			type rc struct {
+				ptxt string
+				want []string
+			}
+			for _, t := range []rc{
+				{mode + fmt.Sprintf("$.rows[*] ? (@.a[$.pick[@.i]] == %d).id", v), want},
+				{mode + "$.m[*][$.k[*] ? (@ == last)]", wantLast},
+				{mode + "$.m[*][$.k[0] + last]", wantLast},
+				{mode + "$.m[*][$.k[*] ? (@ == last) to last]", wantLast},
+			} {
+				p := cachedPath(t.ptxt)
+				if p == nil {
+					c.Count("gen.unparsable", 1)
+					continue
+				}
+				for _, useNum := range []bool{false, true} {
+					o := h.Call("query", p, h.Decode(docText, useNum), h.Opts{})
+					c.Eval(1)
+					c.Distinct(t.ptxt, docText)
+					got := ""
+					if o.Class == h.OK {
+						gs := make([]string, len(o.Items))
+						for j, it := range o.Items {
+							gs[j] = canonJSON(it)
+						}
+						got = strings.Join(gs, " | ")
+					}
+					if o.Class != h.OK || got != strings.Join(t.want, " | ") {
+						c.Violate("subscript.current", h.F("mode", modeName(lax), "bound", "starts-at-root"), fmt.Sprintf("Query(%s) on %s = %s; working the bound out for each array in turn gives [%s]", t.ptxt, docText, o.Summary(), strings.Join(t.want, " | ")), h.Case{Kind: "nested", Path: t.ptxt, Doc: docText, UseNum: useNum})
+					} else {
+						c.Held("subscript.current")
+					}
+				}
+			}
+		}
+	}
 	// subscripts that arrive as json.Number (a variable, a UseNumber document)
 	// in every numeral spelling: fraction, exponent, both
 	{
@@ -1008,6 +1082,75 @@ func runC14(c *h.Ctx) {
 			cl = "null-elements"
 		}
 		c.Violate(cl, h.F("cause", cause, "mode", modeName(lax), "form", "multi-array"), fmt.Sprintf("Query(%s) on %s = %s; slice arithmetic per array gives [%s] (fails: %v)", ptxt, docText, o.Summary(), wantS, fails), cs)
+	}
+	// a subscript list with steps after it: every element the list selects is
+	// handed on, whether all items are asked for, the first one, or only whether
+	// there is one (an earlier subscript's match is not undone by a later one)
+	{
+		rc := c.Rand("c14-continued")
+		elemsAlpha := []string{`{"a":1}`, `{"b":2}`, `{"a":{"b":3}}`, `[7,8]`, `6`, `"s"`, `{"a":[9]}`, `{"a":7,"b":0}`, `[]`, `[{"a":4}]`}
+		conts := []string{".a", "[0]", " ? (@ > 5)", ".a.b", ".a[0]", ".size()", ".a ? (@ > 3)", "[0].a", ".b", " ? (exists(@.a))"}
+		nc := c.PerShard(c.N(60000, 600000))
+		for i := 0; i < nc; i++ {
+			n := 2 + rc.IntN(4)
+			els := make([]string, n)
+			for j := range els {
+				els[j] = elemsAlpha[rc.IntN(len(elemsAlpha))]
+			}
+			ns := 2 + rc.IntN(2)
+			sp := make([]string, ns)
+			for j := range sp {
+				sb := sub{from: c14Bounds[rc.IntN(len(c14Bounds))]}
+				if rc.IntN(3) == 0 {
+					b := c14Bounds[rc.IntN(len(c14Bounds))]
+					sb.to = &b
+				}
+				sp[j] = sb.text()
+			}
+			lax := rc.IntN(3) != 0
+			mode := map[bool]string{true: "", false: "strict "}[lax]
+			acc := "[" + strings.Join(sp, ", ") + "]"
+			cont := conts[rc.IntN(len(conts))]
+			docText := "[" + strings.Join(els, ",") + "]"
+			ptxt := mode + "$" + acc + cont
+			p := cachedPath(ptxt)
+			pin := cachedPath(mode + "$ ? (exists(@.w" + acc + cont + "))")
+			if p == nil || pin == nil {
+				c.Count("gen.unparsable", 1)
+				continue
+			}
+			o := h.Call("query", p, h.Decode(docText, false), h.Opts{})
+			c.Eval(1)
+			if o.Class != h.OK {
+				c.Skip("continued", "query-fails")
+				continue
+			}
+			c.Distinct(ptxt, docText)
+			cs := h.Case{Kind: "nested", Path: ptxt, Doc: docText}
+			oe := h.Call("exists", p, h.Decode(docText, false), h.Opts{})
+			of := h.Call("first", p, h.Decode(docText, false), h.Opts{})
+			oi := h.Call("query", pin, h.Decode(`{"w":`+docText+`}`, false), h.Opts{})
+			c.Eval(3)
+			var first any
+			if len(o.Items) > 0 {
+				first = o.Items[0]
+			}
+			switch {
+			case oe.Class == h.Panic || of.Class == h.Panic || oi.Class == h.Panic:
+				c.Skip("continued", "panic-is-C05")
+			case oe.Class != h.OK || oe.Bool != (len(o.Items) > 0):
+				c.Violate("exists-agrees", h.F("mode", modeName(lax), "form", "continued", "entry", "exists"), fmt.Sprintf("Query(%s) on %s = %s but Exists = %s", ptxt, docText, o.Summary(), oe.Summary()), cs)
+			case of.Class != h.OK || canonJSON(of.Val) != canonJSON(first):
+				c.Violate("exists-agrees", h.F("mode", modeName(lax), "form", "continued", "entry", "first"), fmt.Sprintf("Query(%s) on %s = %s but First = %s", ptxt, docText, o.Summary(), of.Summary()), cs)
+			case oi.Class != h.OK || (len(oi.Items) > 0) != (len(o.Items) > 0):
+				ics := cs
+				ics.Path, ics.Doc = mode+"$ ? (exists(@.w"+acc+cont+"))", `{"w":`+docText+`}`
+				c.Violate("exists-agrees", h.F("mode", modeName(lax), "form", "continued", "entry", "exists()-in-filter"), fmt.Sprintf("Query(%s) on %s = %s but Query(%s) = %s", ptxt, docText, o.Summary(), ics.Path, oi.Summary()), ics)
+			default:
+				c.Held("exists-agrees")
+				c.Held("continued")
+			}
+		}
 	}
 	// random larger cases
 	r := c.Rand("c14")
